@@ -341,6 +341,23 @@ theorem readStream_q {P : Nat → Reasm.Q → Prop} (hP : GPres P) {b : Nat} (x 
   · exact h
   · exact h
 
+theorem mem_setFirst {p : Stream → Bool} {v : Stream} {l : List Stream} {y : Stream} (h : y ∈ setFirst p v l) : y ∈ l ∨ y = v := by
+  induction l with
+  | nil => simp [setFirst] at h
+  | cons z l ih =>
+    simp only [setFirst] at h
+    split at h
+    · simp only [List.mem_cons] at h
+      rcases h with rfl | h
+      · right; rfl
+      · left; exact List.mem_cons_of_mem _ h
+    · simp only [List.mem_cons] at h
+      rcases h with rfl | h
+      · left; exact List.mem_cons_self
+      · rcases ih h with h | h
+        · left; exact List.mem_cons_of_mem _ h
+        · right; exact h
+
 theorem read_allQ_g {P : Nat → Reasm.Q → Prop} (hP : GPres P) {b : Nat} {s : St} (h : AllQ (P b) s) (nm : Name) (n : Nat) :
     AllQ (P b) (read s nm n).1 := by
   unfold read
@@ -348,20 +365,16 @@ theorem read_allQ_g {P : Nat → Reasm.Q → Prop} (hP : GPres P) {b : Nat} {s :
   · rename_i x hx
     refine ⟨?_, h.2⟩
     intro y hy
-    simp only [List.mem_map] at hy
-    obtain ⟨z, hz, rfl⟩ := hy
-    split
+    rcases mem_setFirst hy with hy | rfl
+    · exact h.1 y hy
     · exact readStream_q hP x n (h.1 x (List.mem_of_find?_eq_some hx))
-    · exact h.1 z hz
   · split
     · rename_i x hx
       refine ⟨h.1, ?_⟩
       intro y hy
-      simp only [List.mem_map] at hy
-      obtain ⟨z, hz, rfl⟩ := hy
-      split
+      rcases mem_setFirst hy with hy | rfl
+      · exact h.2 y hy
       · exact readStream_q hP x n (h.2 x (List.mem_of_find?_eq_some hx))
-      · exact h.2 z hz
     · exact h
 
 theorem gather_allQ {P : Reasm.Q → Prop} {s : St} (h : AllQ P s) : AllQ P (gather s).1 := by
